@@ -2723,7 +2723,11 @@ func (m *Matcher) cmpKey(e *env, key string, op token.Token, c int64, alsoKey st
 // overwritten with a constant on some path (if n > 127 { n = 127 }): writer and reader still agree
 // on the count, but the elements beyond it are never written — they are lost in transit.
 func (m *Matcher) clampedCount(wfr *frame, wl, rl *Loop, rfr *frame) {
-	if wl.Bound == nil || wfr.ctx.FI == nil || wfr.ctx.FI.Decl.Body == nil {
+	if wfr.ctx.FI == nil || wfr.ctx.FI.Decl.Body == nil {
+		return
+	}
+	m.cutCollection(wfr, wl, rl, rfr)
+	if wl.Bound == nil {
 		return
 	}
 	id, ok := ast.Unparen(stripConv(wfr.ctx, wl.Bound)).(*ast.Ident)
@@ -2762,6 +2766,15 @@ func (m *Matcher) clampedCount(wfr *frame, wl, rl *Loop, rfr *frame) {
 				}
 				if name == "len" || name == "Size" || name == "Len" || name == "Count" {
 					sized = true
+				}
+				// n := limit(len(x)) with limit a function of the module that answers a constant on some
+				// path and its argument on another: the count is cut to that constant
+				if k := m.cappingHelper(wfr, call); k != "" && len(call.Args) == 1 {
+					if ic, ok := ast.Unparen(stripConv(wfr.ctx, call.Args[0])).(*ast.CallExpr); ok {
+						if f, ok := ic.Fun.(*ast.Ident); ok && f.Name == "len" {
+							sized, clamp = true, k+" (by "+name+")"
+						}
+					}
 				}
 			}
 		}
@@ -2927,6 +2940,92 @@ func (m *Matcher) readerClampedCount(wl, rl *Loop, wfr, rfr *frame) {
 	})
 	if fromStream && clamp != "" {
 		m.fail("countlink", wl, rl, wfr, rfr, "the reader's repetition count %s is read from the stream and then overwritten with %s on some path: it repeats fewer times than the writer did and leaves the remaining elements unread", id.Name, clamp)
+	}
+}
+
+// cappingHelper: call is a call of a one-parameter function of the module that returns a constant on
+// one path and its parameter on another (min(n, K) written out): the constant, else "".
+func (m *Matcher) cappingHelper(fr *frame, call *ast.CallExpr) string {
+	fn := calleeOf(fr.ctx.Info, call)
+	cfi := m.X.P.FuncOf(fn)
+	if cfi == nil || cfi.Decl.Body == nil || cfi.Decl.Type.Params.NumFields() != 1 || len(cfi.Decl.Type.Params.List[0].Names) != 1 {
+		return ""
+	}
+	cinfo := cfi.Pkg.TypesInfo
+	param := cinfo.Defs[cfi.Decl.Type.Params.List[0].Names[0]]
+	konst, passes := "", false
+	ast.Inspect(cfi.Decl.Body, func(n ast.Node) bool {
+		rs, ok := n.(*ast.ReturnStmt)
+		if !ok || len(rs.Results) != 1 {
+			return true
+		}
+		if tv, ok := cinfo.Types[rs.Results[0]]; ok && tv.Value != nil {
+			konst = tv.Value.ExactString()
+		} else if id, ok := ast.Unparen(rs.Results[0]).(*ast.Ident); ok && cinfo.ObjectOf(id) == param {
+			passes = true
+		}
+		return true
+	})
+	if konst != "" && passes {
+		return konst
+	}
+	return ""
+}
+
+// cutCollection: the collection the writer repeats over is a local that is re-sliced to a constant
+// length on some path (cores = cores[:K] when it is longer): the elements beyond K are never written.
+func (m *Matcher) cutCollection(wfr *frame, wl, rl *Loop, rfr *frame) {
+	var src ast.Expr
+	switch {
+	case wl.Range != nil:
+		src = wl.Range
+	case wl.Bound != nil:
+		src = wl.Bound
+	}
+	if src == nil {
+		return
+	}
+	info := wfr.ctx.Info
+	var loc types.Object
+	ast.Inspect(src, func(n ast.Node) bool {
+		if id, ok := n.(*ast.Ident); ok && loc == nil {
+			if o := info.ObjectOf(id); o != nil && isLocalVar(o) {
+				if _, isSl := o.Type().Underlying().(*types.Slice); isSl {
+					loc = o
+				}
+			}
+		}
+		return true
+	})
+	if loc == nil {
+		return
+	}
+	cut := ""
+	ast.Inspect(wfr.ctx.FI.Decl.Body, func(n ast.Node) bool {
+		as, ok := n.(*ast.AssignStmt)
+		if !ok || len(as.Lhs) != len(as.Rhs) || as.Pos() > wl.Pos {
+			return true
+		}
+		for i, l := range as.Lhs {
+			lid, ok := l.(*ast.Ident)
+			if !ok || info.ObjectOf(lid) != loc {
+				continue
+			}
+			se, ok := ast.Unparen(as.Rhs[i]).(*ast.SliceExpr)
+			if !ok || se.High == nil {
+				continue
+			}
+			if xid, ok := ast.Unparen(se.X).(*ast.Ident); !ok || info.ObjectOf(xid) != loc {
+				continue
+			}
+			if tv, ok := info.Types[se.High]; ok && tv.Value != nil {
+				cut = tv.Value.ExactString()
+			}
+		}
+		return true
+	})
+	if cut != "" {
+		m.fail("omission", wl, rl, wfr, rfr, "the collection the writer repeats over (%s) is cut to its first %s elements on some path: the elements beyond are never written", loc.Name(), cut)
 	}
 }
 
